@@ -31,6 +31,7 @@ SIGS = {
     "two-scalars": [((0, 0), 1), ((0, 1), 1)],
     "scalar-vector": [((1, 0), 1), ((0, 0), 2)],
     "three": [((0, 1), 1), ((1, 0), 2), ((0, 0), 1)],
+    "tensor": [((2, 0), 1), ((1, 1), 2)],
 }
 
 
@@ -103,7 +104,7 @@ def run_case(case, seed):
         if len(v) < 5:
             v.append(viol(fp, msg, case=case))
 
-    means = {(0, 0): 0.0, (0, 1): 3.0, (1, 0): -2.0}
+    means = {(0, 0): 0.0, (0, 1): 3.0, (1, 0): -2.0, (1, 1): 1.5, (2, 0): -0.75}
     X = {kp: (rng.normal(size=(B, c * S) + sp + (D,) * kp[0]) + means[kp]).astype(np.float32) for kp, c in sig}
     Y = {kp: (rng.normal(size=(B, c * S) + sp + (D,) * kp[0]) + means[kp] + 0.5).astype(np.float32) for kp, c in sig}
     keys = [kp for kp, _ in sig]
